@@ -26,6 +26,7 @@ CLASSES = [            # (name, [(field, type)]); type in any | int | float | st
     ('A', [('x', 'any'), ('y', 'any')]),
     ('B', [('p', 'int'), ('q', 'float'), ('r', 'str')]),
     ('C', [('items', 'list_int'), ('z', 'any')]),
+    ('D', [('x', 'any'), ('y', 'any')]),      # same fields as A: only the class tells them apart
 ]
 
 
@@ -404,6 +405,12 @@ class TmplGen:
     if not one:
       cand_ty = 'int' if ty == 'list_int' else 'any'
     cands = [self.gen(depth - 1, cand_ty, in_cand=True) for _ in range(n)]
+    if cand_ty == 'any' and r.chance(0.3):
+      # a twin candidate: same fields and content, other class (A <-> D)
+      for c in list(cands):
+        if c[0] == 'obj' and c[1] in (0, 3) and not all_tags(c):
+          cands.insert(r.below(len(cands) + 1), ['obj', 3 - c[1]] + c[2:])
+          break
     if one:
       return ['choice', self.fresh_tag(), True, 1, cands, True, False]
     distinct, sorted_ = r.chance(0.5), r.chance(0.5)
@@ -435,7 +442,7 @@ class TmplGen:
     # any
     if depth <= 0:
       return self.floatv() if r.chance(0.07) else self.const('any')
-    k = r.weighted([(3, 'const'), (3, 'dict'), (2, 'list'), (1, 'A'), (1, 'B'), (1, 'C'),
+    k = r.weighted([(3, 'const'), (3, 'dict'), (2, 'list'), (2, 'A'), (1, 'B'), (1, 'C'), (1, 'D'),
                     (5, 'oneof'), (3, 'manyof'), (1, 'floatv')])
     if k == 'const':
       return self.const('any')
@@ -452,7 +459,7 @@ class TmplGen:
       return ['dict', keys, [self.gen(depth - 1) for _ in keys]]
     if k == 'list':
       return ['list', [self.gen(depth - 1) for _ in range(r.randint(0, 3))]]
-    ci = 'ABC'.index(k)
+    ci = 'ABCD'.index(k)
     fields = CLASSES[ci][1]
     return ['obj', ci, [f for f, _ in fields], [self.gen(depth - 1, fty) for _, fty in fields]]
 
@@ -466,7 +473,7 @@ class TmplGen:
     elif k < 6:
       t = ['list', [self.gen(depth) for _ in range(r.randint(1, 3))]]
     elif k < 8:
-      ci = r.below(3)
+      ci = r.below(4)
       fields = CLASSES[ci][1]
       t = ['obj', ci, [f for f, _ in fields], [self.gen(depth, fty) for _, fty in fields]]
     else:
@@ -667,7 +674,7 @@ class C13(Prop):
   case_timeout_s = 20
   jobs_quick = 4
   jobs_thorough = 6
-  rule = ('templates generated from a typed grammar (dict / list / three pg.Object classes with Any, Int, '
+  rule = ('templates generated from a typed grammar (dict / list / four pg.Object classes (two of them with identical fields) with Any, Int, '
           'Float, Str, List(Int) fields; oneof, manyof in all four distinct x sorted modes with k <= 3, floatv; '
           'placeholders nested inside candidates of other placeholders up to depth 4; at the root or inside '
           'containers), 25 % with a `where` filter on a random subset of placeholder tags, 12 % with '
